@@ -1396,7 +1396,7 @@ fn tail() -> impl Strategy<Value = Tail> + Clone {
         3 => prop_oneof![1u32..=64, 1000u32..=70_000].prop_map(|cap| Tail::Recv { cap }),
         2 => prop_oneof![Just(0u32), 1u32..=9000].prop_map(|len| Tail::Managed { len }),
         3 => prop_oneof![Just(0u32), 1u32..=9000].prop_map(|len| Tail::Multi { len }),
-        1 => prop_oneof![Just(0u8), Just(24u8), Just(64u8)].prop_map(|clen| Tail::MsgMulti { clen }),
+        2 => prop_oneof![1 => Just(0u8), 1 => Just(64u8), 4 => 1u8..=128].prop_map(|clen| Tail::MsgMulti { clen }),
         2 => Just(Tail::ReadToEnd),
     ]
 }
@@ -1472,7 +1472,7 @@ pub fn part() -> Part<StreamCase> {
          (send, send_vectored, write_all, write_vectored_all, send_zerocopy(_vectored) with immediate or deferred buffer return, send_msg(_vectored)/send_msg_zerocopy with or without \
          ancillary data; sizes 0..300 KiB) through an owned stream / &stream / borrowed split half, then shutdown; and a receiver script of 0-6 ops (recv into Vec / Box<[u8]> / slice view \
          with canaries, recv_vectored, read_exact, recv_managed, recv_msg, recv_msg_managed) followed by a tail that drains to EOF (recv loop, recv_managed loop, recv_multi stream, \
-         recv_msg_multi stream, read_to_end); optional small SO_SNDBUF/SO_RCVBUF; sender and receiver(s) are concurrent tasks on one runtime stepped by the harness. \
+         read_multi_with_ancillary stream with any control length 0..128, read_to_end); optional small SO_SNDBUF/SO_RCVBUF; sender and receiver(s) are concurrent tasks on one runtime stepped by the harness. \
          Non-trivial = some direction used >= 2 different send kinds or >= 2 different receive kinds, or had a partial send (count < buffer length); distinct = distinct serialised case.",
     );
     p.quick_cases = 600;
